@@ -267,6 +267,10 @@ pub fn gen_world(r: &mut Rng) -> Vec<Tree> {
                     addrs.push(addr_tree(&if i == 31 { server_addr } else { SocketAddr::new(IpAddr::V4(Ipv4Addr::new(10, 9, 9, 9)), 1000 + i) }));
                 }
             }
+            23 | 15 => {
+                // a sibling server: the same IP address, another port (and the v6 counterpart is covered by `stranger`)
+                addrs.push(addr_tree(&SocketAddr::new(server_addr.ip(), server_addr.port() + 7)));
+            }
             0 | 8 | 16 => addrs.push(addr_tree(&stranger)),                               // not in the host list
             1 | 9 | 17 => {
                 addrs.push(addr_tree(&stranger));                                         // fail over to the second entry
